@@ -10,6 +10,7 @@ package sbom
 
 //@ typeinv NodeList: (forall i int :: 0 <= i && i < len(self.Nodes) ==> self.Nodes[i] != nil) && (forall j int :: 0 <= j && j < len(self.Edges) ==> self.Edges[j] != nil)
 //@ typeinv Node: (forall i int :: 0 <= i && i < len(self.Suppliers) ==> self.Suppliers[i] != nil) && (forall j int :: 0 <= j && j < len(self.Originators) ==> self.Originators[j] != nil) && (forall k int :: 0 <= k && k < len(self.ExternalReferences) ==> self.ExternalReferences[k] != nil)
+//@ typeinv Metadata: (forall i int :: 0 <= i && i < len(self.Tools) ==> self.Tools[i] != nil) && (forall j int :: 0 <= j && j < len(self.Authors) ==> self.Authors[j] != nil) && (forall k int :: 0 <= k && k < len(self.DocumentTypes) ==> self.DocumentTypes[k] != nil)
 //@ typeinv Person: forall i int :: 0 <= i && i < len(self.Contacts) ==> self.Contacts[i] != nil
 
 // ---------------------------------------------------------------------------
